@@ -272,6 +272,20 @@ def oracle(ctx, hints=()):
     kinds = {}
     seen = set()
     sample = None
+    # orientations in other precisions first (float32 from a detector pipeline, float16, exact integer matrices): whatever Umis does
+    # with them, the cached operator tables must afterwards still be what rotations() computes (checked by check_tables below)
+    from xfab import symmetry
+    for s in range(1, 8):
+        for dt in (np.float32, np.float16, np.int64):
+            try:
+                I = np.eye(3).astype(dt)
+                R90 = np.array([[0, -1, 0], [1, 0, 0], [0, 0, 1]]).astype(dt)
+                with np.errstate(all='ignore'):
+                    symmetry.Umis(I, R90, s)
+                    symmetry.Umis(R90, I, s)
+            except Exception:
+                pass
+            evals += 2
     for s in range(1, 8):
         viol += check_tables(s)
         evals += 2 * ORDERS[s] ** 2
